@@ -138,7 +138,9 @@ Record env_ok (e : envelope) : Prop := {
   eo_alg : gke_kdf_alg e = STR_KDF_ALG;
   eo_params : gke_kdf_params e = rk_kdf_params rk;
   eo_conf : conforming (kdfK c h rkid l0) root_top (env_of e);
-  eo_names : names_ok (gke_flags e) (gke_domain e) (gke_forest e) = true }.
+  eo_names : names_ok (gke_flags e) (gke_domain e) (gke_forest e) = true;
+  eo_salg : gke_secret_alg e = rk_secret_alg rk;
+  eo_priv : gke_priv_len e = rk_priv_len rk }.
 
 (* the root key is loaded, and the entry of the triple (if any) is such an envelope *)
 Definition cache_ok (cache : ccache) : Prop :=
@@ -151,7 +153,7 @@ Hypothesis Hl0 : 0 <= l0 <= 2147483647.
 
 Lemma env_ok_hash e : env_ok e -> envelope_hash e = Ok h.
 Proof.
-  intros [_ _ _ Ea Ep _ _]. unfold envelope_hash. rewrite Ea, Ep. unfold Model.Gkdi.str_eqb. rewrite beqb_refl. cbn [negb]. exact Hhash.
+  intros [_ _ _ Ea Ep _ _ _ _]. unfold envelope_hash. rewrite Ea, Ep. unfold Model.Gkdi.str_eqb. rewrite beqb_refl. cbn [negb]. exact Hhash.
 Qed.
 
 Lemma get_key_ok cache l1 l2 : cache_ok cache -> 0 <= l1 <= 31 -> 0 <= l2 <= 31 ->
@@ -193,7 +195,7 @@ Proof.
                     gke_secret_params := match rk_secret_params rk with Some (x :: r) => x :: r | _ => [] end;
                     gke_priv_len := rk_priv_len rk; gke_pub_len := rk_pub_len rk;
                     gke_domain := []; gke_forest := []; gke_l1_key := top; gke_l2_key := [] |}).
-    { constructor; cbn [gke_l0 gke_rkid gke_kdf_alg gke_kdf_params gke_flags gke_domain gke_forest]; try reflexivity; try assumption.
+    { constructor; cbn [gke_l0 gke_rkid gke_kdf_alg gke_kdf_params gke_flags gke_domain gke_forest gke_secret_alg gke_priv_len]; try reflexivity; try assumption.
       unfold root_top. rewrite Et. apply (root_env_conforming (kdfK c h rkid l0) (Ok top) (Ok [])). }
     split; [exact Hok|]. split; [unfold covers; cbn [env_of e_l1 e_l2 gke_l1 gke_l2]; unfold k_root_env_l1, k_root_env_l2; lia|].
     unfold cc_set_seed. cbn [cc_seeds cc_roots cc_find_seed]. rewrite ckey_eqb_refl. split; [reflexivity|].
